@@ -19,7 +19,10 @@ RULE = ("scenarios: job document / project document writes (old document absent,
         "flushes of signac.buffered() blocks over 1-3 jobs (also forced flushes by a small capacity), buffered blocks that "
         "interleave document modifications with doc-filtered find_jobs / len / iteration / groupby('doc.x') on the same "
         "jobs, document writes through unpickled / copy.copy / copy.deepcopy Job and Project objects (document "
-        "accessed or not before cloning), the document "
+        "accessed or not before cloning), whole assignments `project.doc = {...}` / `job.document = {...}` over non-empty "
+        "documents judged as ONE replacement (all write episodes of the call together: content before or after the call, "
+        "nothing in between), Job.sync / Project.sync (doc_sync ByKey / update) into existing jobs with and without a "
+        "document (the `<doc>~` roll-back copy counts as a temp file), the document "
         "write of the v1->v2 migration, Project.update_cache() on growing and shrinking workspaces (3..400 jobs; "
         "gzip stream in several chunks), update_cache() with an injected OSError at every call of the stream "
         "(clean-up branch), and the raw JSON backend with write_concern False/True; each with JSON thread support "
@@ -31,7 +34,7 @@ RULE = ("scenarios: job document / project document writes (old document absent,
         "entry of the descriptor); any entry on a document/cache/temp name outside the episodes, any entry the model "
         "translation does not consume, a failed replay self-check, a scenario without a write and a fault-case count "
         "different from the try body's length are emitted as mismatching cases; input_distribution['scenarios-"
-        "attempted'] counts scenarios (quick 126, thorough 216), every scenario yields >= 1 case or a harness error.  non-trivial: the old file "
+        "attempted'] counts scenarios (quick 165, thorough 270), every scenario yields >= 1 case or a harness error.  non-trivial: the old file "
         "exists or the write has >= 1 chunk of >= 2 bytes; distinct by (scenario, episode)")
 TRUSTED = [
     "os.replace is atomic w.r.t. concurrent open; a crash preserves the order of completed calls; an open file keeps its inode",
@@ -125,6 +128,13 @@ def build(desc, root):
             with tracing():
                 if how == "reset":
                     d.reset(new)
+                elif how == "assign":
+                    # whole assignment through the owner's setter: project.doc = {...} / job.document = {...}
+                    owner = p2.open_job(id=job.id) if kind == "jobdoc" else p2
+                    if desc.get("alias", True):
+                        owner.doc = new
+                    else:
+                        owner.document = new
                 elif how == "update":
                     d.update(new)
                 else:
@@ -216,6 +226,43 @@ def build(desc, root):
                             list(grp)
                     if desc.get("project"):
                         p2.doc["round"] = r
+        return "SFlush", act
+    if kind == "sync":
+        # document writers outside the document API: Job.sync / Project.sync / Project.clone / import_from
+        from signac.sync import DocSync, FileSync
+        src_root = os.path.join(os.path.dirname(root), "src-" + os.path.basename(root))
+        project = signac.init_project(path=root)
+        source = signac.init_project(path=src_root)
+        sjobs = [source.open_job({"a": i}).init() for i in range(desc.get("njobs", 2))]
+        for i, sj in enumerate(sjobs):
+            _write_plain(os.path.join(sj.path, "signac_job_document.json"), {"src": i, "blob": "s" * desc.get("pad", 10), "k%d" % i: [1, 2]})
+            with open(os.path.join(sj.path, "data.txt"), "w") as fh:
+                fh.write("payload %d" % i)
+        if desc.get("project_doc"):
+            _write_plain(os.path.join(src_root, "signac_project_document.json"), {"psrc": 1})
+            _write_plain(os.path.join(root, "signac_project_document.json"), {"pdst": 0})
+        if desc["dst"] != "missing":
+            for i, sj in enumerate(sjobs):
+                dj = project.open_job(sj.statepoint()).init()
+                if desc["dst"] == "with-doc":
+                    _write_plain(os.path.join(dj.path, "signac_job_document.json"), {"dst": i, "old": True})
+        mode = {"bykey": DocSync.ByKey(), "update": DocSync.update, "copy": DocSync.COPY, "no_sync": DocSync.NO_SYNC}[desc["doc_sync"]]
+
+        def act(tracing):
+            p2 = signac.get_project(root)
+            s2 = signac.get_project(src_root)
+            with tracing():
+                api = desc["api"]
+                if api == "job":
+                    for sj in s2:
+                        p2.open_job(sj.statepoint()).init().sync(sj, strategy=FileSync.always, doc_sync=mode)
+                elif api == "project":
+                    p2.sync(s2, strategy=FileSync.always, doc_sync=mode)
+                elif api == "clone":
+                    for sj in s2:
+                        p2.clone(sj)
+                elif api == "import":
+                    p2.import_from(src_root)
         return "SFlush", act
     if kind == "migration":
         os.makedirs(os.path.join(root, "workspace"))
@@ -471,17 +518,37 @@ def run_scenario(desc, work):
         eps = [(a, b, t) for a, b, t, _ in eps_all if os.path.basename(t) in DOC_NAMES]
         ep_fid = {(a, b, t): fid for a, b, t, fid in eps_all}
         # no entry that touches a document / cache file (or one of its temp names) may fall outside the episodes
+        # a whole assignment (`project.doc = {...}`, `job.document = {...}`, reset) is ONE replacement of the document:
+        # all write episodes of the target are judged together against the content before and after the operation
+        if desc.get("single_op") and len(eps) > 1:
+            merged = {}
+            for a, b, t in eps:
+                m0 = merged.setdefault(t, [a, b])
+                m0[0], m0[1] = min(m0[0], a), max(m0[1], b)
+            eps = sorted((a, b, t) for t, (a, b) in merged.items())
+            for a, b, t in eps:
+                ep_fid[(a, b, t)] = None          # several descriptors: the translation goes by name
         covered = set()
         for a, b, _ in eps:
             covered.update(range(a, b + 1))
+        # a side file under a temp name of a document that never becomes the document (the `<doc>~` backup that
+        # sync keeps for its roll-back) is not a document write; it only counts as a stray temp file in the crash states
+        for a, b, t, _ in eps_all:
+            bt = os.path.basename(t)
+            if any(is_tmp_of(bt, n) for n in DOC_NAMES):
+                covered.update(range(a, b + 1))
 
         def doc_related(p):
             if p is None:
                 return False
             base = os.path.basename(p)
             return base in DOC_NAMES or any(is_tmp_of(base, n) for n in DOC_NAMES)
+        def only_side_file(o):
+            # metadata / removal of a side file under a temp name (never of the document or cache file itself)
+            names = [p for p in (o.path, o.path2, o.cur) if p is not None]
+            return o.op in ("utime", "chmod", "unlink") and not any(os.path.basename(p) in DOC_NAMES for p in names)
         for n, o in enumerate(muts):
-            if n not in covered and (doc_related(o.path) or doc_related(o.path2) or doc_related(o.cur)):
+            if n not in covered and not only_side_file(o) and (doc_related(o.path) or doc_related(o.path2) or doc_related(o.cur)):
                 broken = broken + ["entry outside every write episode: " + o.brief()]
         # ---- second, identical run with readers: descriptors opened at every position, read at every later one
         readers = {}   # target -> {(i, j): bytes|None}, positions = number of completed mutations
@@ -574,7 +641,9 @@ def run_scenario(desc, work):
                 old_names.append((0, [1] if old_b else []))
             for e in before_entries:
                 if is_tmp_of(e, base):
-                    old_names.append((1, [2]))
+                    # the protocol's own temp file (e.g. a stale cache~) is name 1, any other side file (sync's
+                    # roll-back copy <doc>~) is just another name
+                    old_names.append((1 if m.get(os.path.join(d, e)) == 1 else 2, [2]))
             cases.append(emit(desc, site, thr_model, old_names, chunks, None, steps, crash, rd, final,
                               {"episode": [a, b, norm_tmp(t)], "trace": [o.brief() for o in ops],
                                "broken": broken + ["not consumed by the model translation: " + u for u in unconsumed],
@@ -615,7 +684,7 @@ def run_scenario(desc, work):
                     old_names = [(0, [1] if old_b else [])] if old_b is not None else []
                     for e in before_entries:
                         if is_tmp_of(e, base):
-                            old_names.append((1, [2]))
+                            old_names.append((1 if m.get(os.path.join(d, e)) == 1 else 2, [2]))
                     cases.append(emit(dict(desc, fault=pos), site, thr_model, old_names, chunks, pos, steps, [], [], (cls, ex),
                                       {"fault_at": pos, "raised": type(exc).__name__ if exc else None,
                                        "trace": [o.brief() for o in opsf],
@@ -683,6 +752,18 @@ def gen_inputs(tier, rng):
                         continue
                     descs.append({"kind": kind, "threads": thr, "old": old, "new": new,
                                   "how": rng.choice(["reset", "update", "set"]) if new != "empty" else "reset"})
+            # whole assignments over non-empty documents, judged as ONE replacement (content old or new, nothing between)
+            for old, new, alias in (("small", "large", True), ("large", "small", False)) + (() if quick else (("small", "huge", False), ("huge", "empty", True))):
+                descs.append({"kind": kind, "threads": thr, "old": old, "new": new, "how": "assign", "alias": alias, "single_op": True})
+            descs.append({"kind": kind, "threads": thr, "old": "large", "new": "small", "how": "reset", "single_op": True})
+        # document writers outside the document API: Job.sync / Project.sync into existing jobs with and without a document
+        for api in ("job", "project"):
+            for ds in ("bykey", "update"):
+                for dst in ("with-doc", "without-doc"):
+                    if quick and api == "project" and ds == "update" and dst == "with-doc":
+                        continue
+                    descs.append({"kind": "sync", "threads": thr, "api": api, "doc_sync": ds, "dst": dst,
+                                  "project_doc": api == "project", "pad": rng.choice([10, 9000])})
         for wc in (False, True):
             for old in ("absent", "small"):
                 descs.append({"kind": "raw", "threads": thr, "write_concern": wc, "old": old, "new": "large"})
